@@ -56,6 +56,13 @@ func HarnessC05BuiltinsOverMapsAndSets() {
 		arg = set
 	}
 	which := verifrt.Choose(6)
+	if which == 5 {
+		// csv: keep the keys to letters (the csv writer's quoting decisions per
+		// byte are not what is examined here)
+		for _, k := range m.StringKeys() {
+			verifrt.Assume(len(k) == 1 && k[0] >= 'a' && k[0] <= 'z')
+		}
+	}
 	do := func() string {
 		switch which {
 		case 0:
